@@ -15,7 +15,7 @@ theorem reattach_same_instance (P : Params) (hP : P.Good) (test : Bool) :
     ∃ s, step P (init (.reattach test) true) (.start true) = some s ∧
       s.outs = [.okAddr 0] ∧ s.addr = some 0 ∧ s.launches = 0 ∧
       s.runner = (if test then none else some 0) := by
-  obtain ⟨h1, h2, h3, h4, h5⟩ := hP
+  obtain ⟨h1, h2, h3, h4, h5, h6⟩ := hP
   cases test <;> simp [step, doStart, init, emit, h2, h5]
 
 /-- **Reattaching when nothing is there fails** (process-not-found) and changes nothing. -/
@@ -26,7 +26,7 @@ theorem reattach_dead_not_found (P : Params) (test : Bool) :
 /-- **Killing through the reattached client terminates that plugin** (outside test mode). -/
 theorem kill_via_reattached_kills_instance (P : Params) (hP : P.Good) (a b : Bool) :
     ∃ s, runFrom P (init (.reattach false) true) [.start true, .killA a b, .killB] = some s ∧ s.procs 0 = some false := by
-  obtain ⟨h1, h2, h3, h4, h5⟩ := hP
+  obtain ⟨h1, h2, h3, h4, h5, h6⟩ := hP
   cases b <;> simp [runFrom, step, doStart, doClient, init, emit, updP, h2, h3, h5]
 
 /-- **In test mode the client never holds a handle on the server process**, in any reachable state … -/
@@ -46,14 +46,140 @@ theorem test_mode_kill_is_noop_on_server (P : Params) (hP : P.Good) (alive : Boo
 
 /-- Witness: if test mode recorded the runner, Kill would kill the server. -/
 theorem test_mode_records_runner_witness :
-    ∃ s, runFrom ⟨true, true, true, true, false⟩ (init (.reattach true) true) [.start true, .killA true true, .killB] = some s ∧
+    ∃ s, runFrom ⟨true, true, true, true, false, true⟩ (init (.reattach true) true) [.start true, .killA true true, .killB] = some s ∧
       s.procs 0 = some false := by
-  refine ⟨(runFrom ⟨true, true, true, true, false⟩ (init (.reattach true) true) [.start true, .killA true true, .killB]).get (by decide), by simp, by decide⟩
+  refine ⟨(runFrom ⟨true, true, true, true, false, true⟩ (init (.reattach true) true) [.start true, .killA true true, .killB]).get (by decide), by simp, by decide⟩
+
+/-! ### Reattaching several times: clients built from a reattached client's `ReattachConfig()`
+
+`chain P s es rest`: the first client runs the history `es`; for every further history a NEW client is
+built from `ReattachConfig()` of the current one (`nextGen`) and runs it.  The process table is shared. -/
+
+/-- **Test mode is inherited along any chain of reattach-from-`ReattachConfig()`**: whatever each
+generation did before, the last client is again a test-mode client and holds no handle on the server. -/
+theorem test_chain_never_records_runner (P : Params) (hP : P.Good) (alive : Bool) (es : List Event)
+    (rest : List (List Event)) (s : State) (h : chain P (init (.reattach true) alive) es rest = some s) :
+    s.launch = .reattach true ∧ s.runner = none := by
+  unfold chain at h
+  cases hr : runFrom P (init (.reattach true) alive) es with
+  | none => simp [hr] at h
+  | some s1 =>
+    rw [hr] at h
+    simp only at h
+    have hi1 := inv_runFrom P hP es _ s1 (inv_init _ alive) hr
+    have hl1 : s1.launch = .reattach true := by rw [launch_runFrom P es _ s1 hr]; rfl
+    obtain ⟨hi, hl⟩ := chainFrom_test P hP rest s1 s hi1 hl1 h
+    exact ⟨hl, hi.test_norunner hl⟩
+
+/-- … **so Kill through a client of any generation leaves the serving process exactly as it was.** -/
+theorem test_chain_kill_is_noop_on_server (P : Params) (hP : P.Good) (alive : Bool) (es : List Event)
+    (rest : List (List Event)) (s s' : State) (h : chain P (init (.reattach true) alive) es rest = some s)
+    (a b : Bool) (hs : step P s (.killA a b) = some s') : s'.procs = s.procs ∧ s'.kills = s.kills := by
+  have hr := (test_chain_never_records_runner P hP alive es rest s h).2
+  simp only [step, hr, Option.some.injEq] at hs
+  subst hs; simp [emit]
+
+private theorem runFrom_procs_test (P : Params) (hP : P.Good) : ∀ (es : List Event) (s s' : State),
+    Inv s → s.launch = .reattach true → (∀ e ∈ es, ∀ p, e ≠ .procDies p) → runFrom P s es = some s' → s'.procs = s.procs := by
+  intro es
+  induction es with
+  | nil => intro s s' _ _ _ hr; simp [runFrom] at hr; exact hr ▸ rfl
+  | cons e es ih =>
+    intro s s' hi hl hne hr
+    simp only [runFrom] at hr
+    cases hs : step P s e with
+    | none => simp [hs] at hr
+    | some s1 =>
+      rw [hs] at hr
+      have h1 := step_procs_norunner P s s1 e true hl (hi.test_norunner hl) (hne e (by simp)) hs
+      rw [ih s1 s' (inv_step P hP s s1 e hi hs) (by rw [step_launch P s s1 e hs]; exact hl)
+        (fun e' he' => hne e' (by simp [he'])) hr, h1]
+
+private theorem chainFrom_procs_test (P : Params) (hP : P.Good) : ∀ (rest : List (List Event)) (s s' : State),
+    Inv s → s.launch = .reattach true → (∀ es ∈ rest, ∀ e ∈ es, ∀ p, e ≠ .procDies p) →
+    chainFrom P s rest = some s' → s'.procs = s.procs := by
+  intro rest
+  induction rest with
+  | nil => intro s s' _ _ _ h; simp [chainFrom] at h; exact h ▸ rfl
+  | cons es rest ih =>
+    intro s s' hi hl hne h
+    simp only [chainFrom] at h
+    cases hn : nextGen P s with
+    | none => simp [hn] at h
+    | some s1 =>
+      rw [hn] at h
+      simp only at h
+      cases hr : runFrom P s1 es with
+      | none => simp [hr] at h
+      | some s2 =>
+        rw [hr] at h
+        simp only at h
+        obtain ⟨hi1, hp1, hl1, _⟩ := nextGen_spec P s s1 hn
+        have hl1' : s1.launch = .reattach true := by
+          have := hl1 true hl
+          simpa [hP.2.2.2.2.2] using this
+        have h2 := runFrom_procs_test P hP es s1 s2 hi1 hl1' (hne es (by simp)) hr
+        rw [ih s2 s' (inv_runFrom P hP es s1 s2 hi1 hr) (by rw [launch_runFrom P es s1 s2 hr]; exact hl1')
+          (fun es' he' => hne es' (by simp [he'])) h, h2, hp1]
+
+/-- **The plugin stops only by itself**: along any chain of test-mode clients — any number of
+generations, any operations (Start, Client, Kill, …) in any order on each — the process table is
+exactly the initial one unless the server process dies on its own (a `procDies` event). -/
+theorem test_chain_server_untouched (P : Params) (hP : P.Good) (alive : Bool) (es : List Event)
+    (rest : List (List Event)) (s : State) (h : chain P (init (.reattach true) alive) es rest = some s)
+    (hne : ∀ es' ∈ es :: rest, ∀ e ∈ es', ∀ p, e ≠ .procDies p) :
+    s.procs = (init (.reattach true) alive).procs := by
+  unfold chain at h
+  cases hr : runFrom P (init (.reattach true) alive) es with
+  | none => simp [hr] at h
+  | some s1 =>
+    rw [hr] at h
+    simp only at h
+    have hi1 := inv_runFrom P hP es _ s1 (inv_init _ alive) hr
+    have hl1 : s1.launch = .reattach true := by rw [launch_runFrom P es _ s1 hr]; rfl
+    have h1 := runFrom_procs_test P hP es _ s1 (inv_init _ alive) rfl (hne es (by simp)) hr
+    rw [chainFrom_procs_test P hP rest s1 s hi1 hl1 (fun es' he' => hne es' (by simp [he'])) h, h1]
+
+/-- **Outside test mode, Kill through a second-generation client terminates that same plugin.** -/
+theorem chain_kill_kills_instance (P : Params) (hP : P.Good) (a b : Bool) :
+    ∃ s, chain P (init (.reattach false) true) [.start true] [[.start true, .killA a b, .killB]] = some s ∧
+      s.procs 0 = some false := by
+  obtain ⟨h1, h2, h3, h4, h5, h6⟩ := hP
+  cases b <;> simp [chain, chainFrom, nextGen, reattachConfigOf, runFrom, step, doStart, doClient, init, emit, updP, h2, h3, h5]
+
+/-- … and a client built from the `ReattachConfig()` of a client that LAUNCHED the plugin reaches
+that instance and can kill it. -/
+theorem chain_from_launcher_kills_instance (P : Params) (hP : P.Good) (a b : Bool) :
+    ∃ s, chain P (init .cmd false) [.start true] [[.start true, .killA a b, .killB]] = some s ∧
+      s.addr = some 0 ∧ s.procs 0 = some false := by
+  obtain ⟨h1, h2, h3, h4, h5, h6⟩ := hP
+  cases b <;> simp [chain, chainFrom, nextGen, reattachConfigOf, runFrom, step, doStart, doClient, init, emit, updP, h1, h2, h3, h5]
+
+/-- Witness: if `ReattachConfig()` of a reattached client dropped the `Test` flag, Kill through a
+second-generation client would kill a test-mode server — while a first-generation client (the only
+thing a single reattach exercises) behaves correctly with the same facts. -/
+theorem reattach_config_drops_test_witness :
+    (∃ s, chain ⟨true, true, true, true, true, false⟩ (init (.reattach true) true) [.start true]
+        [[.start true, .killA true true, .killB]] = some s ∧ s.launch = .reattach false ∧ s.procs 0 = some false) ∧
+    (∃ s, chain ⟨true, true, true, true, true, false⟩ (init (.reattach true) true)
+        [.start true, .killA true true] [] = some s ∧ s.procs 0 = some true) := by
+  refine ⟨⟨(chain ⟨true, true, true, true, true, false⟩ (init (.reattach true) true) [.start true]
+      [[.start true, .killA true true, .killB]]).get (by decide), by simp, by decide, by decide⟩,
+    ⟨(chain ⟨true, true, true, true, true, false⟩ (init (.reattach true) true)
+      [.start true, .killA true true] []).get (by decide), by simp, by decide⟩⟩
+
+/-- non-vacuity: three generations in test mode, Kill on each; the server dies only by itself -/
+example : ∃ s, chain ⟨true, true, true, true, true, true⟩ (init (.reattach true) true) [.start true, .killA true true]
+    [[.client true true, .killA true true], [.start true, .killA true true, .procDies 0]] = some s ∧
+    s.launch = .reattach true ∧ s.procs 0 = some false ∧ s.kills = 0 := by
+  refine ⟨(chain ⟨true, true, true, true, true, true⟩ (init (.reattach true) true) [.start true, .killA true true]
+    [[.client true true, .killA true true], [.start true, .killA true true, .procDies 0]]).get (by decide),
+    by simp, by decide, by decide, by decide⟩
 
 /-- non-vacuity: test mode, the server dies only by itself -/
-example : ∃ s, runFrom ⟨true, true, true, true, true⟩ (init (.reattach true) true)
+example : ∃ s, runFrom ⟨true, true, true, true, true, true⟩ (init (.reattach true) true)
     [.start true, .client true true, .killA true true, .procDies 0] = some s ∧ s.procs 0 = some false ∧ s.kills = 0 := by
-  refine ⟨(runFrom ⟨true, true, true, true, true⟩ (init (.reattach true) true)
+  refine ⟨(runFrom ⟨true, true, true, true, true, true⟩ (init (.reattach true) true)
     [.start true, .client true true, .killA true true, .procDies 0]).get (by decide), by simp, by decide, by decide⟩
 
 end GoPlugin.Props.C15
